@@ -10,6 +10,12 @@ import Chrono.Props.C06
 import Chrono.Props.C07
 import Chrono.Props.C16
 import Chrono.Props.C19
+import Chrono.Props.C02
+import Chrono.Props.C03
+import Chrono.Props.C04
+import Chrono.Props.C08
+import Chrono.Props.C12
+import Chrono.Props.C17
 
 namespace Chrono.Props.C15
 open Chrono Chrono.M Chrono.Spec Chrono.Proofs Chrono.Extracted
@@ -105,6 +111,60 @@ theorem weekday_iter_total (sched : List Bool) (s : Nat) (start : Weekday) (hs :
     ∃ r, WeekdaySet.runSchedule sched ⟨s, start⟩ = .ok r := by
   obtain ⟨fs, ks, s', h, _⟩ := C19.iter_interleaved_spec sched s start hs
   exact ⟨_, h⟩
+
+/-- the timestamp constructor returns normally for every `i64` second count and every `u32`
+nanosecond field, and what it returns is a valid date-time -/
+theorem from_timestamp_total (secs nsecs : Int) (hs : Spec.Ts.isI64 secs) (hn : Spec.Ts.isU32 nsecs) :
+    ∃ r, NaiveDT.from_timestamp secs nsecs = .ok r ∧ ∀ dt, r = some dt → NDTInv dt := by
+  obtain ⟨r, h, hv⟩ := C02.from_ts_meaning secs nsecs hs hn
+  exact ⟨r, h, fun dt hd => (hv dt hd).1⟩
+
+/-- date-time ± duration and date ± days return normally on every valid operand (non-leap for the
+date-time form; leap operands: `C03.add_with_leap_operand`) -/
+theorem datetime_arith_total (dt : NaiveDT) (δ : Delta) (d : Date) (n : Int) (hdt : NDTInv dt)
+    (hnl : NonLeap dt) (hδ : DInv δ) (hd : DateInv d) (hn : -2147483648 ≤ n ∧ n ≤ 2147483647) :
+    (∃ r, NaiveDT.checked_add_signed dt δ = .ok r) ∧ (∃ r, Date.add_days d n = .ok r) := by
+  obtain ⟨r1, h1, _⟩ := C03.add_exact dt δ hdt hnl hδ
+  obtain ⟨r2, h2, _⟩ := C03.add_days_exact d n hd hn
+  exact ⟨⟨r1, h1⟩, ⟨r2, h2⟩⟩
+
+/-- zone-aware values: building from a wall clock and reading the wall clock (with the one-day
+headroom) return normally for every valid value and every offset a `FixedOffset` can hold -/
+theorem zoned_total (off : Int) (ℓ : NaiveDT) (z : Zoned) (ho : OffValid off) (hℓ : NDTInv ℓ)
+    (hz : ZInv z) :
+    (∃ r, Zoned.from_local_datetime off ℓ = .ok r) ∧ (∃ l, Zoned.overflowing_naive_local z = .ok l) := by
+  obtain ⟨r, h, _⟩ := C04.fromLocal_fails_iff off ℓ ho hℓ
+  obtain ⟨l, h2, _⟩ := C04.headroom_sound z hz
+  exact ⟨⟨r, h⟩, ⟨l, h2⟩⟩
+
+/-- month stepping and every date field replacement return normally for every date of the range and
+every argument (including `u32::MAX`-sized ones) -/
+theorem date_ops_total (y : Int) (o : Nat) (hy : MIN_YEAR ≤ y ∧ y ≤ MAX_YEAR) (ho : 1 ≤ o ∧ o ≤ yearLen y)
+    (n v : Nat) (y' : Int) :
+    (∃ r, (dateOfYo y o).checked_add_months n = .ok r) ∧ (∃ r, (dateOfYo y o).checked_sub_months n = .ok r) ∧
+    (∃ r, (dateOfYo y o).with_year y' = .ok r) ∧ (∃ r, (dateOfYo y o).with_month v = .ok r) ∧
+    (∃ r, (dateOfYo y o).with_day v = .ok r) ∧ (∃ r, (dateOfYo y o).with_ordinal v = .ok r) ∧
+    (∃ r, (dateOfYo y o).with_month0 v = .ok r) ∧ (∃ r, (dateOfYo y o).with_day0 v = .ok r) ∧
+    (∃ r, (dateOfYo y o).with_ordinal0 v = .ok r) := by
+  obtain ⟨m1, m2⟩ := C08.months_spec y o hy ho n
+  obtain ⟨w1, w2, w3, w4, w5, w6, w7⟩ := C08.with_field_spec y o hy ho v y'
+  exact ⟨⟨_, m1⟩, ⟨_, m2⟩, ⟨_, w1⟩, ⟨_, w2⟩, ⟨_, w4⟩, ⟨_, w6⟩, ⟨_, w3⟩, ⟨_, w5⟩, ⟨_, w7⟩⟩
+
+/-- rounding never panics: every failure is reported by value -/
+theorem rounding_total (op : Round.Op) (stamp span : Option Int)
+    (hspan : ∀ p, span = some p → p ≤ 9223372036854775807) : Round.run op stamp span ≠ .panic :=
+  (C17.err_iff op stamp span hspan).2.2.2.1
+
+/-- iterating the items of ANY format string terminates: each step consumes at least one byte and
+queues at most 12 further items, so there are at most 13 items per input byte, in strict and in
+lenient mode (`l`), and the `next` iterator ends within 13·len + 1 calls.  (The property text's
+bound "one item per input byte plus a constant" is not met by composite specifiers: known finding
+F18; the linear bound is what holds.) -/
+theorem strftime_terminates (l : Bool) (s : List Nat) :
+    (Strftime.itemsAux l (s.length + 1) s).length ≤ 13 * s.length ∧
+    (∀ n, 13 * s.length < n → Strftime.drain l n ⟨s, []⟩ = Strftime.itemsAux l (s.length + 1) s) := by
+  obtain ⟨_, _, h3, h4⟩ := C12.strftime_terminates l s
+  exact ⟨h3, h4⟩
 
 /-- the documented panics are real: operator subtraction on the minimum duration overflows
 (checked form says `none`), so the operator's `expect` fires -/
